@@ -469,7 +469,15 @@ def main():
         violations.append((path, ('correspondence between model and implementation broken at %s (the property\'s own monitors hold on this input)' % sig) if nofail
                            else 'implementation and model/monitor disagree at %s' % sig, nofail))
 
+    incomplete = []
     for cr in corr.get('crashes', []):
+        # a harness process killed by a signal is a memory-safety failure (C07); one that does not return is a non-terminating
+        # operation (the eviction loop of C01/C02, or a cyclic list: C07). For the other properties the job is merely incomplete
+        # (recorded in the evidence); every step observed before the crash was still judged.
+        hang = 'timed out' in cr['what']
+        concerned = ('C07', 'C01', 'C02') if hang else ('C07',)
+        if pid not in concerned:
+            incomplete.append(cr['job']); continue
         # the implementation killed the harness process: the last trace of the stream is the failing input
         try:
             n_tr = sum(1 for l in open(cr['stream'], errors='replace') if l.startswith('CFG 0 '))
@@ -524,7 +532,7 @@ def main():
             components_checked={k: v for k, v in sorted(checked.items()) if k in comp_table(cfg)},
             components_of_this_property={k: [dict(ops=(sorted(o) if o else 'all'), jobs=(j or 'all')) for o, j in v] for k, v in comp_table(cfg).items()},
             operation_histogram=ophist, input_distribution=dist,
-            jobs=sorted(corr['jobs'].keys()), correspondence_cached=corr.get('cached', False),
+            jobs=sorted(corr['jobs'].keys()), incomplete_jobs_harness_crashed_or_hung=incomplete, correspondence_cached=corr.get('cached', False),
             samples=samples, exhaustive=False,
             exhaustive_subspace=('every sequence of 2 operations over the 39-operation small alphabet (3 keys x 3 value sizes, tight limit, all-colliding hasher) from the empty cache' if tier == 'quick' else 'every sequence of 3 operations over the 39-operation small alphabet and every sequence of 4 over the 14-operation reduced alphabet, identity and all-colliding hashers, from the empty cache') + ' (jobs exh*: used as model validation and counter-example search, never as the proof)'),
         assumptions=cfg.get('assumptions', []),
